@@ -167,4 +167,312 @@ theorem insertMeasure_append (x : Measure) : ∀ (l1 l2 : List Measure),
     rw [if_neg this, ih l2 (fun b hb => h1 b (List.mem_cons_of_mem _ hb)) h2]
     rfl
 
+-- ------------------------------------------------------------------ one iteration
+
+
+theorem snap_nat (k : Nat) : snap (k : Rat) = (k : Rat) := by
+  unfold snap
+  have e : ((k : Nat) : Rat) = ((k : Int) : Rat) := by simp
+  simp only
+  rw [e, Round.roundHalfEven_int]
+  simp [absR]
+
+theorem pyMin_nat (a b : Nat) : pyMin (a : Rat) (b : Rat) = ((min a b : Nat) : Rat) := by
+  unfold pyMin
+  split
+  · rename_i h
+    have : b < a := by exact_mod_cast h
+    rw [Nat.min_eq_right (le_of_lt this)]
+  · rename_i h
+    have : ¬ (b < a) := by intro hc; apply h; exact_mod_cast hc
+    rw [Nat.min_eq_left (by omega)]
+
+theorem floor_nat (k : Nat) : ((k : Rat).floor).toNat = k := by
+  have e : ((k : Nat) : Rat) = ((k : Int) : Rat) := by simp
+  rw [e, Rat.floor_intCast]
+  simp
+
+theorem seg_eq (f : Rat → Nat → Option Rat) (tsEnd beats fuel : Nat) (s : St) :
+    segLoop f tsEnd beats (fuel + 1) s =
+    (if ¬ (s.pos < (tsEnd : Rat)) then .ok s
+    else
+      match f s.pos beats with
+      | none => .error "nan"
+      | some be =>
+        let measureEnd := snap (pyMin (tsEnd : Rat) be)
+        match firstInWindow s.pos measureEnd s.ms with
+        | some (i, ex) =>
+          if (ex.start : Rat) = s.pos then
+            if ¬ ((ex.stop : Rat) > s.pos) then .error "assert"
+            else segLoop f tsEnd beats fuel ⟨(ex.stop : Rat), setNumber i s.mc s.ms, s.mc + 1⟩
+          else
+            let new : Measure := ⟨s.pos.floor.toNat, ex.start, some s.mc⟩
+            let ms := insertMeasure new (setNumber i (s.mc + 1) s.ms)
+            segLoop f tsEnd beats fuel ⟨(ex.stop : Rat), ms, s.mc + 2⟩
+        | none =>
+          let new : Measure := ⟨s.pos.floor.toNat, measureEnd.floor.toNat, some s.mc⟩
+          segLoop f tsEnd beats fuel ⟨measureEnd, insertMeasure new s.ms, s.mc + 1⟩) := rfl
+
+/-- one iteration, existing measure right at the position -/
+theorem seg_at (f : Rat → Nat → Option Rat) (tsEnd beats fuel : Nat) (s : St) (be : Rat) (i : Nat) (ex : Measure)
+    (h1 : s.pos < (tsEnd : Rat)) (h2 : f s.pos beats = some be)
+    (h3 : firstInWindow s.pos (snap (pyMin (tsEnd : Rat) be)) s.ms = some (i, ex))
+    (h4 : (ex.start : Rat) = s.pos) (h5 : (ex.stop : Rat) > s.pos) :
+    segLoop f tsEnd beats (fuel + 1) s =
+      segLoop f tsEnd beats fuel ⟨(ex.stop : Rat), setNumber i s.mc s.ms, s.mc + 1⟩ := by
+  rw [seg_eq, if_neg (not_not.mpr h1)]
+  simp only [h2, h3, h4, if_true, not_not.mpr h5, if_false]
+
+theorem seg_filler (f : Rat → Nat → Option Rat) (tsEnd beats fuel : Nat) (s : St) (be : Rat) (i : Nat) (ex : Measure)
+    (h1 : s.pos < (tsEnd : Rat)) (h2 : f s.pos beats = some be)
+    (h3 : firstInWindow s.pos (snap (pyMin (tsEnd : Rat) be)) s.ms = some (i, ex))
+    (h4 : ¬ ((ex.start : Rat) = s.pos)) :
+    segLoop f tsEnd beats (fuel + 1) s =
+      segLoop f tsEnd beats fuel ⟨(ex.stop : Rat),
+        insertMeasure ⟨s.pos.floor.toNat, ex.start, some s.mc⟩ (setNumber i (s.mc + 1) s.ms), s.mc + 2⟩ := by
+  rw [seg_eq, if_neg (not_not.mpr h1)]
+  simp only [h2, h3, h4, if_false]
+
+theorem seg_new (f : Rat → Nat → Option Rat) (tsEnd beats fuel : Nat) (s : St) (be : Rat)
+    (h1 : s.pos < (tsEnd : Rat)) (h2 : f s.pos beats = some be)
+    (h3 : firstInWindow s.pos (snap (pyMin (tsEnd : Rat) be)) s.ms = none) :
+    segLoop f tsEnd beats (fuel + 1) s =
+      segLoop f tsEnd beats fuel ⟨snap (pyMin (tsEnd : Rat) be),
+        insertMeasure ⟨s.pos.floor.toNat, (snap (pyMin (tsEnd : Rat) be)).floor.toNat, some s.mc⟩ s.ms, s.mc + 1⟩ := by
+  rw [seg_eq, if_neg (not_not.mpr h1)]
+  simp only [h2, h3]
+
+theorem seg_stop (f : Rat → Nat → Option Rat) (tsEnd beats fuel : Nat) (s : St)
+    (h1 : ¬ (s.pos < (tsEnd : Rat))) : segLoop f tsEnd beats (fuel + 1) s = .ok s := by
+  show (if ¬ (s.pos < (tsEnd : Rat)) then Except.ok s else _) = _
+  rw [if_pos h1]
+
+/-- on integer positions the bar-end map answers with a later integer position -/
+def Integral (f : Rat → Nat → Option Rat) : Prop :=
+  ∀ (n beats : Nat) (v : Rat), f (n : Rat) beats = some v → ∃ w : Nat, v = (w : Rat) ∧ n < w
+
+/-- the loop invariant: `done` tiles `[first, n)` numbered from 1, `todo` are the untouched existing
+    measures from `n` on, the existing ones already passed are among `done` with their extents -/
+def Inv (first : Nat) (orig : List Measure) (tsEnd : Nat) (s : St) : Prop :=
+  ∃ (n : Nat) (done todo consumed : List Measure),
+    s.pos = (n : Rat) ∧ n ≤ tsEnd ∧ s.ms = done ++ todo ∧ TN first 1 done n s.mc ∧ TD n todo ∧
+    orig = consumed ++ todo ∧ (consumed.map ext).Sublist (done.map ext)
+
+theorem seg_inv (f : Rat → Nat → Option Rat) (hf : Integral f) (first : Nat) (orig : List Measure) (tsEnd beats : Nat)
+    (hns : ∀ m ∈ orig, ¬ (m.start < tsEnd ∧ tsEnd < m.stop)) :
+    ∀ (fuel : Nat) (s s' : St), Inv first orig tsEnd s → segLoop f tsEnd beats fuel s = .ok s' →
+      Inv first orig tsEnd s' ∧ s'.pos = (tsEnd : Rat) := by
+  intro fuel
+  induction fuel with
+  | zero => intro s s' _ h; simp [segLoop] at h
+  | succ fuel ih =>
+    intro s s' hinv h
+    obtain ⟨n, done, todo, consumed, hpos, hle, hms, htn, htd, horig, hsub⟩ := hinv
+    by_cases hlt : s.pos < (tsEnd : Rat)
+    swap
+    · rw [seg_stop _ _ _ _ _ hlt] at h
+      simp only [Except.ok.injEq] at h
+      subst h
+      have : ¬ (n < tsEnd) := by intro hc; apply hlt; rw [hpos]; exact_mod_cast hc
+      have hn : n = tsEnd := by omega
+      exact ⟨⟨n, done, todo, consumed, hpos, hle, hms, htn, htd, horig, hsub⟩, by rw [hpos, hn]⟩
+    · have hnlt : n < tsEnd := by rw [hpos] at hlt; exact_mod_cast hlt
+      cases hfv : f s.pos beats with
+      | none =>
+        rw [seg_eq, if_neg (not_not.mpr hlt)] at h
+        simp only [hfv] at h
+        cases h
+      | some be =>
+        obtain ⟨w, hw, hnw⟩ := hf n beats be (by rw [← hpos]; exact hfv)
+        have hme : snap (pyMin (tsEnd : Rat) be) = ((min tsEnd w : Nat) : Rat) := by
+          rw [hw, pyMin_nat, snap_nat]
+        have hnh : n < min tsEnd w := by omega
+        have hhle : min tsEnd w ≤ tsEnd := Nat.min_le_left _ _
+        -- nothing of `done` is in the window
+        have hdone : ∀ m ∈ done, ¬ ((n : Rat) ≤ (m.start : Rat) ∧ (m.start : Rat) < ((min tsEnd w : Nat) : Rat)) := by
+          intro m hm hc
+          have h1 := tn_start_lt _ _ _ _ _ htn m hm
+          have h2 : n ≤ m.start := by exact_mod_cast hc.1
+          omega
+        have hdle : ∀ a ∈ done, a.start ≤ n := fun a ha => le_of_lt (tn_start_lt _ _ _ _ _ htn a ha)
+        have hwin : firstInWindow s.pos (snap (pyMin (tsEnd : Rat) be)) s.ms =
+            (firstInWindow (n : Rat) ((min tsEnd w : Nat) : Rat) todo).map fun (i, x) => (i + done.length, x) := by
+          rw [hme, hpos, hms]; exact firstInWindow_append _ _ _ _ hdone
+        -- the case "a new measure up to the bar end"
+        have caseNew : firstInWindow (n : Rat) ((min tsEnd w : Nat) : Rat) todo = none →
+            (∀ a, todo.head? = some a → min tsEnd w ≤ a.start) →
+            Inv first orig tsEnd s' ∧ s'.pos = (tsEnd : Rat) := by
+          intro hnone hhead
+          rw [hnone] at hwin
+          rw [seg_new _ _ _ _ _ _ hlt hfv hwin, hme, hpos, floor_nat, floor_nat, hms] at h
+          rw [insertMeasure_append _ _ _ (by intro a ha; exact hdle a ha)
+            (by intro a ha; have := hhead a ha; show n < a.start; omega)] at h
+          apply ih _ s' _ h
+          refine ⟨min tsEnd w, done ++ [⟨n, min tsEnd w, some s.mc⟩], todo, consumed, rfl, hhle, by simp, ?_, ?_, horig, ?_⟩
+          · apply tn_append _ _ _ _ _ _ _ _ htn
+            exact (tn_cons ..).mpr ⟨rfl, hnh, rfl, (tn_nil ..).mpr ⟨rfl, rfl⟩⟩
+          · cases todo with
+            | nil => trivial
+            | cons m rest =>
+              obtain ⟨_, t2, t3⟩ := (td_cons ..).mp htd
+              exact (td_cons ..).mpr ⟨hhead m rfl, t2, t3⟩
+          · rw [List.map_append]
+            exact hsub.trans (List.sublist_append_left _ _)
+        cases todo with
+        | nil => exact caseNew rfl (by intro a ha; simp at ha)
+        | cons m rest =>
+          obtain ⟨t1, t2, t3⟩ := (td_cons ..).mp htd
+          have hmorig : m ∈ orig := by rw [horig]; simp
+          by_cases hmw : m.start < min tsEnd w
+          · -- an existing measure in the window
+            have hcond : (n : Rat) ≤ (m.start : Rat) ∧ (m.start : Rat) < ((min tsEnd w : Nat) : Rat) :=
+              ⟨by exact_mod_cast t1, by exact_mod_cast hmw⟩
+            rw [firstInWindow_cons_pos _ _ _ _ hcond] at hwin
+            simp only [Option.map_some] at hwin
+            have hstop : m.stop ≤ tsEnd := by
+              have := hns m hmorig
+              omega
+            by_cases hat : m.start = n
+            · have h4 : (m.start : Rat) = s.pos := by rw [hpos, hat]
+              have h5 : (m.stop : Rat) > s.pos := by rw [hpos]; exact_mod_cast (by omega : n < m.stop)
+              rw [seg_at _ _ _ _ _ _ _ _ hlt hfv hwin h4 h5, hms, setNumber_append] at h
+              apply ih _ s' _ h
+              refine ⟨m.stop, done ++ [{ m with number := some s.mc }], rest, consumed ++ [m], rfl, hstop, by simp, ?_, t3,
+                by rw [horig]; simp, ?_⟩
+              · apply tn_append _ _ _ _ _ _ _ _ htn
+                exact (tn_cons ..).mpr ⟨hat, t2, rfl, (tn_nil ..).mpr ⟨rfl, rfl⟩⟩
+              · rw [List.map_append, List.map_append]
+                exact hsub.append (List.Sublist.refl _)
+            · have h4 : ¬ ((m.start : Rat) = s.pos) := by
+                rw [hpos]; intro hc; apply hat; exact_mod_cast hc
+              have hgt : n < m.start := by omega
+              rw [seg_filler _ _ _ _ _ _ _ _ hlt hfv hwin h4, hms, setNumber_append, hpos, floor_nat] at h
+              rw [insertMeasure_append _ _ _ (by intro a ha; exact hdle a ha)
+                (by intro a ha; simp only [List.head?_cons, Option.some.injEq] at ha; subst ha; exact hgt)] at h
+              apply ih _ s' _ h
+              refine ⟨m.stop, done ++ [⟨n, m.start, some s.mc⟩, { m with number := some (s.mc + 1) }], rest, consumed ++ [m],
+                rfl, hstop, by simp, ?_, t3, by rw [horig]; simp, ?_⟩
+              · apply tn_append _ _ _ _ _ _ _ _ htn
+                refine (tn_cons ..).mpr ⟨rfl, hgt, rfl, (tn_cons ..).mpr ⟨rfl, t2, rfl, (tn_nil ..).mpr ⟨rfl, ?_⟩⟩⟩
+                show s.mc + 1 + 1 = s.mc + 2
+                omega
+              · rw [List.map_append, List.map_append]
+                apply hsub.append
+                exact List.Sublist.cons _ (List.Sublist.refl _)
+          · -- the first remaining measure starts at or after the bar end: nothing in the window
+            apply caseNew
+            · apply firstInWindow_none_of
+              intro x hx hc
+              have hxs : m.start ≤ x.start := by
+                rcases List.mem_cons.mp hx with hx | hx
+                · subst hx; exact Nat.le_refl _
+                · have := td_start_ge _ _ t3 x hx; omega
+              have : x.start < min tsEnd w := by exact_mod_cast hc.2
+              omega
+            · intro a ha
+              simp only [List.head?_cons, Option.some.injEq] at ha
+              subst ha; omega
+
+-- ------------------------------------------------------------------ all stretches
+
+
+/-- the invariant between stretches, at time `n` -/
+def InvAt (first : Nat) (orig : List Measure) (n : Nat) (ms : List Measure) (mc : Int) : Prop :=
+  ∃ (done todo consumed : List Measure),
+    ms = done ++ todo ∧ TN first 1 done n mc ∧ TD n todo ∧
+    orig = consumed ++ todo ∧ (consumed.map ext).Sublist (done.map ext)
+
+/-- the stretches chain from `a` to `z` -/
+def SC : Nat → Nat → List (Nat × Nat × Nat) → Prop
+  | a, z, [] => a = z
+  | a, z, (s, e, _) :: rest => s = a ∧ s ≤ e ∧ SC e z rest
+
+theorem sc_cons (a z s e b : Nat) (rest : List (Nat × Nat × Nat)) :
+    SC a z ((s, e, b) :: rest) ↔ (s = a ∧ s ≤ e ∧ SC e z rest) := Iff.rfl
+
+theorem run_inv (f : Rat → Nat → Option Rat) (hf : Integral f) (first : Nat) (orig : List Measure) (fuel : Nat) :
+    ∀ (l : List (Nat × Nat × Nat)) (a z : Nat) (ms : List Measure) (mc : Int) (ms' : List Measure) (mc' : Int),
+      SC a z l → (∀ m ∈ orig, ∀ x ∈ l, ¬ (m.start < x.2.1 ∧ x.2.1 < m.stop)) →
+      InvAt first orig a ms mc → runStretches f fuel l ms mc = .ok (ms', mc') → InvAt first orig z ms' mc' := by
+  intro l
+  induction l with
+  | nil =>
+    intro a z ms mc ms' mc' hsc _ hinv h
+    have : a = z := hsc
+    subst this
+    simp only [runStretches, Except.ok.injEq, Prod.mk.injEq] at h
+    obtain ⟨rfl, rfl⟩ := h
+    exact hinv
+  | cons x rest ih =>
+    intro a z ms mc ms' mc' hsc hns hinv h
+    obtain ⟨s, e, b⟩ := x
+    obtain ⟨hs, hse, hrest⟩ := (sc_cons ..).mp hsc
+    subst hs
+    unfold runStretches at h
+    split at h
+    · cases h
+    · rename_i st hst
+      obtain ⟨done, todo, consumed, h1, h2, h3, h4, h5⟩ := hinv
+      have hi : Inv first orig e ⟨(s : Rat), ms, mc⟩ := ⟨s, done, todo, consumed, rfl, hse, h1, h2, h3, h4, h5⟩
+      obtain ⟨⟨n, done', todo', consumed', g0, _, g1, g2, g3, g4, g5⟩, hpos⟩ :=
+        seg_inv f hf first orig e b (fun m hm => hns m hm (s, e, b) List.mem_cons_self) fuel _ st hi hst
+      have hn : n = e := by
+        have : (n : Rat) = (e : Rat) := by rw [← g0, hpos]
+        exact_mod_cast this
+      subst hn
+      exact ih n z st.ms st.mc ms' mc' hrest (fun m hm x hx => hns m hm x (List.mem_cons_of_mem _ hx))
+        ⟨done', todo', consumed', g1, g2, g3, g4, g5⟩ h
+
+/-- numbers of a numbered tiling: the `i`-th measure in time order has number `k + i` -/
+theorem tn_numbers : ∀ (l : List Measure) (a b : Nat) (k k' : Int), TN a k l b k' →
+    (∀ (i : Nat) (h : i < l.length), (l[i]).number = some (k + (i : Int))) ∧ k' = k + (l.length : Int) := by
+  intro l
+  induction l with
+  | nil => intro a b k k' h; exact ⟨by intro i hi; simp at hi, by have := h.2; simp [this]⟩
+  | cons m rest ih =>
+    intro a b k k' h
+    obtain ⟨_, _, h3, h4⟩ := (tn_cons ..).mp h
+    obtain ⟨i1, i2⟩ := ih _ _ _ _ h4
+    refine ⟨?_, by rw [i2]; simp only [List.length_cons]; push_cast; omega⟩
+    intro i hi
+    cases i with
+    | zero => simp [h3]
+    | succ j =>
+      simp only [List.getElem_cons_succ]
+      rw [i1 j (by simpa using hi)]
+      push_cast
+      congr 1
+      omega
+
+/-- a numbered tiling covers `[a, b)` -/
+theorem tn_cover : ∀ (l : List Measure) (a b : Nat) (k k' : Int), TN a k l b k' →
+    ∀ t, a ≤ t → t < b → ∃ m ∈ l, m.start ≤ t ∧ t < m.stop := by
+  intro l
+  induction l with
+  | nil => intro a b k k' h t h1 h2; have := h.1; omega
+  | cons m rest ih =>
+    intro a b k k' h t h1 h2
+    obtain ⟨e1, e2, _, e4⟩ := (tn_cons ..).mp h
+    by_cases ht : t < m.stop
+    · exact ⟨m, List.mem_cons_self, by omega, ht⟩
+    · obtain ⟨m', hm', c⟩ := ih _ _ _ _ e4 t (by omega) h2
+      exact ⟨m', List.mem_cons_of_mem _ hm', c⟩
+
+/-- the measures of a numbered tiling are pairwise disjoint, in time order -/
+theorem tn_disjoint : ∀ (l : List Measure) (a b : Nat) (k k' : Int), TN a k l b k' →
+    l.Pairwise (fun m m' => m.stop ≤ m'.start) ∧ ∀ m ∈ l, a ≤ m.start ∧ m.stop ≤ b := by
+  intro l
+  induction l with
+  | nil => intro a b k k' _; exact ⟨List.Pairwise.nil, by intro m hm; simp at hm⟩
+  | cons m rest ih =>
+    intro a b k k' h
+    obtain ⟨e1, e2, _, e4⟩ := (tn_cons ..).mp h
+    obtain ⟨p1, p2⟩ := ih _ _ _ _ e4
+    have hle := tn_le _ _ _ _ _ e4
+    refine ⟨List.pairwise_cons.mpr ⟨fun m' hm' => (p2 m' hm').1, p1⟩, ?_⟩
+    intro x hx
+    rcases List.mem_cons.mp hx with hx | hx
+    · subst hx; omega
+    · have := p2 x hx; omega
+
 end C11Meas
